@@ -24,7 +24,11 @@ def klass(e):
         c = e.cls()
         if c.startswith("mem:"):
             f = c[4:]
+            if f == "x":
+                return "memfx"
             return ("mem" + str(D.SIZE[f] * 8)) + ("s" if f.islower() else "u")
+        if isinstance(e, D.Const) and isinstance(e.value, float):
+            return "constfx"
         return c
     if isinstance(e, D.Un):
         return f"{e.op}({klass(e.x)})"
